@@ -45,6 +45,16 @@ class Ctx:
             return dict(verdict=v)
         return solver.check(asserts, self.decide_timeout, self.backend, want_model=False, tag='d')
 
+    def model(self):
+        """a model of pre & pc (for replays)"""
+        if self.backend == 'inproc':
+            if self.inproc is None:
+                from .z3py import InProc
+                self.inproc = InProc(timeout_ms=int(self.decide_timeout * 1000), ints=self.ints)
+            return self.inproc.check(self.pre + self.pc, want_model=True)
+        r = solver.check(self.pre + self.pc, self.decide_timeout, self.backend, want_model=True)
+        return r['verdict'], r['model']
+
     def valid(self, cond):
         """Is cond entailed by pre & pc?  (no forking)  -> True / False / None (unknown)"""
         if isinstance(cond, SymBool):
